@@ -52,7 +52,21 @@ Proof. vm_compute. repeat split; reflexivity. Qed.
 (* the witnesses of C01_established_sound_refuted *)
 Example ex_w1 : r_class w1_run = ROk /\ r_bits w1_run = st_Ready /\ q_self_ready (mon_of cfg_ab 0 w1_run) = true.
 Proof. vm_compute. repeat split; reflexivity. Qed.
-Example ex_w2 : r_class w2_run = ROk /\ q_need_header (mon_of cfg_ab 0 w2_run) = true /\ q_self_ready (mon_of cfg_ab 0 w2_run) = true.
+(* the former witness W2 (Ready together with a new connection): the Ready bit
+   is ignored, the stream restarts (header sent), and since the script ends there
+   the run ends in an error — without Ready *)
+Example ex_w2 :
+  r_class w2_run = RErr EOther /\ r_bits w2_run = 0%N /\ negs (trace w2_run) = [((xa, str "a"), 0%N)] /\
+  map raw (skipn 5 (trace w2_run)) = [ROut RWHeader; REof].
+Proof. vm_compute. repeat split; reflexivity. Qed.
+
+(* an error after a feature reported Ready: a voluntary feature returns Ready
+   without a restart, the receiver reads the next selection and the input ends;
+   the session that is returned does not have the Ready bit *)
+Example ex_error_not_ready :
+  let r := run (mkCfg [fv1; fv2] false false true (str "example.net") None false) st_Received
+               [hdr; sel fv1] [] [mkO st_Ready false false] [] in
+  r_class r = RErr EOther /\ r_bits r = st_Received /\ self_ready (trace r) = true.
 Proof. vm_compute. repeat split; reflexivity. Qed.
 
 (* the hypothesis of the partial theorem (no feature reported Ready itself) is
@@ -84,14 +98,19 @@ Example ex_bidi_refused :
                        RIn (mkItem false (PElem ns_bidi_select ft_bidi_local))].
 Proof. vm_compute. repeat split; reflexivity. Qed.
 
-(* the witness of C01_established_literal_refuted: established with Authn|Ready,
-   only a ran, b (required, needs Authn) was advertised and is eligible now *)
+(* the former witness W3: b is advertised as required before its prerequisite
+   holds; after the voluntary a set Authn, b is negotiated from the same list *)
 Example ex_w3 :
-  r_class w3_run = ROk /\ r_bits w3_run = 6%N /\ negs (trace w3_run) = [((xa, str "a"), 0%N)] /\
-  q_advall (mon_of cfg_w3 0 w3_run) = [(false, mkF xa (str "a") 0 0 true KAbstract false false); (true, fb_authn)] /\ q_cache (mon_of cfg_w3 0 w3_run) = [(false, mkF xa (str "a") 0 0 true KAbstract false false)].
+  r_class w3_run = ROk /\ r_bits w3_run = 6%N /\ negs (trace w3_run) = [((xa, str "a"), 0%N); ((xb, str "b"), 2%N)].
 Proof. vm_compute. repeat split; reflexivity. Qed.
 
-(* the witness of C01_voluntary_first_literal_refuted: a, then the required c
-   in state Authn, while the voluntary b (needs Authn) was advertised and never ran *)
-Example ex_w4 : negs (trace w4_run) = [((xa, str "a"), 0%N); ((xc, str "c"), 2%N)].
+(* the witness of C01_established_literal_refuted: two configured features in
+   one name space, the later child replaces the required one in the cache *)
+Example ex_w5 :
+  r_class w5_run = ROk /\ r_bits w5_run = 4%N /\ negs (trace w5_run) = [] /\
+  q_advall (mon_of cfg_w5 0 w5_run) = [(true, fa_req); (false, fa2_info)] /\ q_cache (mon_of cfg_w5 0 w5_run) = [(false, fa2_info)].
+Proof. vm_compute. repeat split; reflexivity. Qed.
+
+(* the witness of C01_voluntary_first_literal_refuted *)
+Example ex_w6 : negs (trace w6_run) = [((xc, str "c"), 0%N)].
 Proof. vm_compute. reflexivity. Qed.
